@@ -261,6 +261,14 @@ def r_pool(P, chk):
     ob("token_pool_drain: decrements, then really drains only at use count 0",
        bool(decs) and bool(pd) and all(any(_norm(c) == "token_pool_count==0" for c in _cond_of(tdrain, d)) for d in pd) and
        all(tdrain.cfg.dominates(decs[0]["i"], d["i"]) for d in pd), "pool:drain-count", tdrain.where())
+    # ... and nowhere else: any other drain / free of the shared pool in token.c (e.g. "start clean" on a nested init) would
+    # pull the slabs from under an outer user's tokens
+    tu = P.units.get("token.c")
+    for g in tu.funcs.values():
+        for c in g.calls():
+            if c.get("callee") in ("pool_drain", "pool_free") and len(c["c"]) > 1 and key(c["c"][1]) == "token_pool":
+                gated = any(_norm(cd) == "token_pool_count==0" for cd in _cond_of(g, c))
+                ob("%s: %s(token_pool) only at use count 0" % (g.name, c["callee"]), gated, "pool:gate:%s" % g.name, g.where(c))
     pf = [c for c in tfree.calls("pool_free")]
     nul = [x for x in tfree.walk() if x["k"] == "BinaryOperator" and x["op"] == "=" and key(x["c"][0]) == "token_pool" and const_value(x["c"][1]) == 0]
     ob("token_pool_free: frees only at use count 0 and forgets the pointer",
@@ -782,7 +790,7 @@ def r_highbyte(P, chk):
                     chk.violation(rid, "highbyte:%s:%s:%d" % (f.unit.base, f.name, cv & 0xff), f.where(x),
                                   "%s compares a single text byte with 0x%02x: bytes >= 0x80 are parts of multi-byte characters, not "
                                   "characters" % (f.name, cv & 0xff))
-    chk.floor(rid, n, 2, "comparisons of text bytes with high constants")
+    chk.floor(rid, n, 1, "comparisons of text bytes with high constants")
 
 
 # ---------------------------------------------------------------------------
